@@ -11,7 +11,10 @@ for d in sorted(glob.glob('/verif/seeded/*/')):
     sigs = []
     for c, r in m['checks_run_quick_tier'].items():
         if r['exit'] == 1: sigs.append(f"{c}: " + ', '.join(r['signatures'][:3]))
-    rows.append((m['id'], m['breaks_property'], first, ', '.join(m['caught_by']) or '**missed**', '; '.join(sigs), m['applies_to_repo_head']))
+    caught = ', '.join(m['caught_by']) or '**missed**'
+    if m.get('missed_at_first'):
+        caught += ' (missed at first, see below)'
+    rows.append((m['id'], m['breaks_property'], first, caught, '; '.join(sigs), m['applies_to_repo_head']))
 out = ["# Independently seeded breaking changes\n",
 "Each directory holds `patch.diff` (git diff), `demo_test.go` (fails with the change, passes without), `meta.txt` (the seeding sub-agent's own notes) and `meta.json` (what was confirmed here and which checks were run).",
 "The changes were written by fresh sub-agents that saw only the property text and a private scratch worktree of `/repo` — nothing from `/verif`. Every one was confirmed with `tools/tryseed.sh` (scratch worktree of `/repo` HEAD, `git apply`, build with and without the `verif` tag, existing suite green, demo fails with / passes without the change) and then run against the named checks' **quick** tier (`VERIF_REPO=<worktree>`). None was ever applied to `/repo`.\n",
@@ -37,5 +40,6 @@ missed_then = """
 Three seeding agents also reported defects of the UNCHANGED tree (false cyclic error for two slices referencing one list; `{"a.b":{"c":nil},"a":{"b":{"c":1}}}` order dependent; ReplaceValues dropping one of two spellings): each was reproduced by the responsible check after extending it, then repaired in `/repo` (`fixed:` lines in `known_findings.txt`).
 """
 out.append(missed_then)
+out.append(open('/verif/tools/seedreadme_wave2.md').read())
 open('/verif/seeded/README.md', 'w').write('\n'.join(out) + '\n')
 print(len(rows), "seeds")
